@@ -43,6 +43,7 @@ struct queue_run
 	std::shared_ptr<end_sink> endp;
 	sim::route route;
 	std::map<std::int64_t, bool> echo_ids;
+	std::map<std::int64_t, bool> had_cb;
 	std::map<std::int64_t, std::vector<std::uint8_t>> sent;
 	std::vector<std::unique_ptr<asio::high_resolution_timer>> timers;
 	std::int64_t steps = 0;
@@ -85,6 +86,9 @@ struct queue_run
 			o["size"] = real_units ? bytes : bytes / U;
 			o["kind"] = kind_name(p.type);
 			o["cb"] = bool(p.drop_fun);
+			// the callback the packet was injected with: a hop must not strip it
+			auto cit = had_cb.find(std::int64_t(p.seq_nr));
+			o["cb0"] = cit != had_cb.end() ? cit->second : bool(p.drop_fun);
 			o["ser"] = ser_ticks(i, bytes);
 			o["t"] = t;
 			rec.emit(o);
@@ -105,6 +109,7 @@ struct queue_run
 		p.seq_nr = std::uint64_t(id);
 		p.hops = route;
 		if (echo) echo_ids[id] = true;
+		had_cb[id] = cb;
 		if (cb)
 		{
 			p.drop_fun = [this, id](packet dp) {
